@@ -28,8 +28,20 @@ def _count_stmts(fn: ast.FunctionDef) -> int:
     return sum(1 for n in ast.walk(fn) if isinstance(n, ast.stmt)) - 1
 
 
+def _walk_own(node):
+    """ast.walk that does not enter nested function definitions (their returns / yields are their own)"""
+    stack = [node]
+    while stack:
+        n = stack.pop()
+        yield n
+        for c in ast.iter_child_nodes(n):
+            if isinstance(c, (ast.FunctionDef, ast.AsyncFunctionDef, ast.Lambda)):
+                continue
+            stack.append(c)
+
+
 def _has_yield(fn) -> bool:
-    return any(isinstance(n, (ast.Yield, ast.YieldFrom)) for n in ast.walk(fn))
+    return any(isinstance(n, (ast.Yield, ast.YieldFrom)) for n in _walk_own(fn))
 
 
 def _body_without_doc(fn: ast.FunctionDef) -> List[ast.stmt]:
@@ -43,7 +55,7 @@ def _returns_ok(stmts: List[ast.stmt]) -> bool:
     """Returns occur only at the end of statement lists or inside if/else (convertible to single exit)."""
     for st in stmts:
         if isinstance(st, (ast.For, ast.While, ast.Try, ast.With)):
-            if any(isinstance(x, ast.Return) for x in ast.walk(st)):
+            if any(isinstance(x, ast.Return) for x in _walk_own(st)):
                 return False
         elif isinstance(st, ast.If):
             if not _returns_ok(st.body) or not _returns_ok(st.orelse):
@@ -69,11 +81,11 @@ def _single_exit(stmts: List[ast.stmt], result: Optional[str]) -> List[ast.stmt]
         if isinstance(st, ast.Return):
             if result is not None:
                 val = st.value if st.value is not None else ast.Constant(value=None)
-                out.append(ast.copy_location(ast.Assign(targets=[ast.Name(id=result, ctx=ast.Store())], value=val), st))
+                out.append(ast.copy_location(ast.Assign(targets=[_result_target(result)], value=val), st))
             elif st.value is not None and not isinstance(st.value, (ast.Constant, ast.Name)):
                 out.append(ast.copy_location(ast.Expr(value=st.value), st))
             return out
-        if isinstance(st, ast.If) and any(isinstance(x, ast.Return) for x in ast.walk(st)):
+        if isinstance(st, ast.If) and any(isinstance(x, ast.Return) for x in _walk_own(st)):
             rest = stmts[i + 1:]
             body = _single_exit(st.body, result)
             if _always_returns(st.body):
@@ -96,9 +108,15 @@ def _single_exit(stmts: List[ast.stmt], result: Optional[str]) -> List[ast.stmt]
     if result is not None and not _always_returns(stmts):
         # falling off the end returns None
         loc = stmts[-1] if stmts else None
-        a = ast.Assign(targets=[ast.Name(id=result, ctx=ast.Store())], value=ast.Constant(value=None))
+        a = ast.Assign(targets=[_result_target(result)], value=ast.Constant(value=None))
         out.append(ast.copy_location(a, loc) if loc is not None else a)
     return out
+
+
+def _result_target(result) -> ast.expr:
+    if isinstance(result, str):
+        return ast.Name(id=result, ctx=ast.Store())
+    return copy.deepcopy(result)
 
 
 class _Rename(ast.NodeTransformer):
@@ -116,6 +134,13 @@ class _Rename(ast.NodeTransformer):
         return n
 
     def visit_FunctionDef(self, n):
+        # a closure defined in the helper: its own name is a local of the helper, its parameters and locals shadow
+        r = self.ren.get(n.name)
+        if isinstance(r, str):
+            n.name = r
+        shadow = {a.arg for a in n.args.args + n.args.kwonlyargs} | _bound_names(n)
+        sub = _Rename({k: v for k, v in self.ren.items() if k not in shadow})
+        n.body = [sub.visit(b) for b in n.body]
         return n
 
     def visit_Lambda(self, n):
@@ -131,6 +156,8 @@ def _bound_names(fn: ast.FunctionDef) -> Set[str]:
     for n in ast.walk(fn):
         if isinstance(n, ast.Name) and isinstance(n.ctx, (ast.Store, ast.Del)):
             out.add(n.id)
+        if isinstance(n, ast.FunctionDef) and n is not fn:
+            out.add(n.name)
     return out
 
 
@@ -175,6 +202,8 @@ def collect_helpers(tree: ast.Module) -> Dict[Tuple[Optional[str], str], Helper]
         for d in fn.decorator_list:
             if isinstance(d, ast.Name) and d.id == "staticmethod":
                 static = True
+            elif isinstance(d, ast.Name) and d.id == "classmethod":
+                pass        # `cls` is bound like `self`: to the receiver of the call (instance or class name)
             else:
                 return None
         a = fn.args
@@ -183,7 +212,10 @@ def collect_helpers(tree: ast.Module) -> Dict[Tuple[Optional[str], str], Helper]
         if _count_stmts(fn) > MAX_STMTS:
             return None
         for n in ast.walk(fn):
-            if n is not fn and isinstance(n, (ast.FunctionDef, ast.ClassDef, ast.AsyncFunctionDef, ast.Global, ast.Nonlocal)):
+            if n is not fn and isinstance(n, (ast.ClassDef, ast.AsyncFunctionDef, ast.Global, ast.Nonlocal)):
+                return None
+            if n is not fn and isinstance(n, ast.FunctionDef) and (n.decorator_list or n.args.vararg or n.args.kwarg
+                                                                   or n.args.defaults or n.args.kw_defaults):
                 return None
             if isinstance(n, ast.Call) and isinstance(n.func, ast.Name) and n.func.id in ("locals", "vars", "eval", "exec", "super"):
                 return None
@@ -238,7 +270,8 @@ def _match_call(c: ast.Call, helpers, self_name: Optional[str], module_funcs: Se
         h = helpers[("M", c.func.attr)]
         recv = c.func.value
         # self._h(...)  /  ClassName._h(...) for static helpers
-        if isinstance(recv, ast.Name) and (recv.id == self_name or (h.static and recv.id == h.cls)):
+        is_cm = any(isinstance(d, ast.Name) and d.id == "classmethod" for d in h.fn.decorator_list)
+        if isinstance(recv, ast.Name) and (recv.id == self_name or ((h.static or is_cm) and recv.id == h.cls)):
             return h, recv
     return None
 
@@ -298,21 +331,37 @@ def _expand(c: ast.Call, h: Helper, recv: Optional[ast.AST], result: Optional[st
     body = copy.deepcopy(_body_without_doc(fn))
     if h.generator:
         return None
-    body = _single_exit(body, result)
+    placeholder = None
+    if result is not None:
+        placeholder = "_pmlint_result_"
+    body = _single_exit(body, placeholder)
     rn = _Rename(ren)
     body = [rn.visit(s) for s in body]
+    if placeholder:
+        # the caller's own assignment target takes the place of every `return e` (after renaming: it is caller-side code
+        # and must not be confused with a local of the helper that happens to have the same name)
+        for s_ in body:
+            for x in ast.walk(s_):
+                if isinstance(x, ast.Assign) and len(x.targets) == 1 and isinstance(x.targets[0], ast.Name) and \
+                        x.targets[0].id == placeholder:
+                    x.targets = [ast.Name(id=result, ctx=ast.Store()) if isinstance(result, str) else copy.deepcopy(result)]
     out = pre + body
     for s in out:
         ast.fix_missing_locations(s)
     return out
 
 
-def _find_inline_call(st: ast.stmt, helpers, self_name, mf) -> Optional[Tuple[ast.Call, Helper, Optional[ast.AST]]]:
-    """The single inlinable call of a simple statement, when it is evaluated unconditionally."""
+def _find_inline_calls(st: ast.stmt, helpers, self_name, mf) -> List[Tuple[ast.Call, Helper, Optional[ast.AST], bool]]:
+    """The inlinable calls of a simple statement in evaluation order (innermost / leftmost first), each with a flag telling
+    whether it is evaluated only conditionally (branch of a conditional expression, tail of and/or, comprehension)."""
     hits = []
 
     def walk(e, guarded):
-        if isinstance(e, (ast.Lambda, ast.ListComp, ast.SetComp, ast.DictComp, ast.GeneratorExp)):
+        if isinstance(e, ast.Lambda):
+            return
+        if isinstance(e, (ast.ListComp, ast.SetComp, ast.DictComp, ast.GeneratorExp)):
+            for ch in ast.iter_child_nodes(e):
+                walk(ch, True)
             return
         if isinstance(e, ast.IfExp):
             walk(e.test, guarded)
@@ -324,12 +373,12 @@ def _find_inline_call(st: ast.stmt, helpers, self_name, mf) -> Optional[Tuple[as
             for v in e.values[1:]:
                 walk(v, True)
             return
+        for ch in ast.iter_child_nodes(e):
+            walk(ch, guarded)
         if isinstance(e, ast.Call):
             m = _match_call(e, helpers, self_name, mf)
             if m is not None and not m[0].generator:
                 hits.append((e, m[0], m[1], guarded))
-        for ch in ast.iter_child_nodes(e):
-            walk(ch, guarded)
     if isinstance(st, ast.Expr):
         walk(st.value, False)
     elif isinstance(st, (ast.Assign, ast.AnnAssign, ast.AugAssign, ast.Return)):
@@ -339,9 +388,81 @@ def _find_inline_call(st: ast.stmt, helpers, self_name, mf) -> Optional[Tuple[as
         walk(st.test, False)
     elif isinstance(st, ast.For):
         walk(st.iter, False)
-    if len(hits) != 1 or hits[0][3]:
+    return hits
+
+
+_PURE = (ast.Name, ast.Attribute, ast.Subscript, ast.Constant, ast.BinOp, ast.UnaryOp, ast.Tuple, ast.Slice, ast.Compare,
+         ast.expr_context, ast.operator, ast.unaryop, ast.cmpop, ast.Index if hasattr(ast, "Index") else ast.Slice)
+
+
+def _is_pure(e: ast.AST) -> bool:
+    return all(isinstance(x, _PURE) for x in ast.walk(e))
+
+
+def _expand_expr(c: ast.Call, h: Helper, recv: Optional[ast.AST], ctx: _Ctx) -> Optional[ast.AST]:
+    """`h(args)` as an expression, for a helper whose body is a single `return <expr>`: parameters are replaced by the
+    argument expressions (possible when an argument is free of calls, or used at most once)."""
+    fn = h.fn
+    body = _body_without_doc(fn)
+    if len(body) != 1 or not isinstance(body[0], ast.Return) or body[0].value is None:
         return None
-    return hits[0][0], hits[0][1], hits[0][2]
+    params = [a.arg for a in fn.args.args]
+    formal = list(params)
+    self_param = None
+    if h.is_method and not h.static:
+        if not formal:
+            return None
+        self_param = formal.pop(0)
+    kwonly = [a.arg for a in fn.args.kwonlyargs]
+    if len(c.args) > len(formal):
+        return None
+    bind: Dict[str, ast.AST] = dict(zip(formal, c.args))
+    for k in c.keywords:
+        if k.arg in bind or (k.arg not in formal and k.arg not in kwonly):
+            return None
+        bind[k.arg] = k.value
+    nd = len(fn.args.defaults)
+    for i, p in enumerate(params[len(params) - nd:] if nd else []):
+        if p not in bind and p != self_param:
+            bind[p] = fn.args.defaults[i]
+    for p, d in zip(kwonly, fn.args.kw_defaults):
+        if p not in bind:
+            if d is None:
+                return None
+            bind[p] = d
+    if any(p not in bind for p in formal):
+        return None
+    bound = _bound_names(fn)
+    expr = body[0].value
+    uses: Dict[str, int] = {}
+    for x in ast.walk(expr):
+        if isinstance(x, ast.Name):
+            uses[x.id] = uses.get(x.id, 0) + 1
+    ren: Dict[str, object] = {}
+    for p in formal + kwonly:
+        if p in bound:
+            return None
+        if not _is_pure(bind[p]) and uses.get(p, 0) > 1:
+            return None
+        ren[p] = bind[p]
+    if self_param is not None:
+        ren[self_param] = recv if recv is not None else ast.Name(id=self_param, ctx=ast.Load())
+    ctx.k += 1
+    tag = f"__{fn.name.strip('_')}{ctx.k}"
+    for nme in bound:
+        ren[nme] = nme + tag
+    return _Rename(ren).visit(copy.deepcopy(expr))
+
+
+def _plain_target(t: ast.AST) -> bool:
+    """x / self.x / (x, self.y, ...): targets whose evaluation has no effect of its own"""
+    if isinstance(t, ast.Name):
+        return True
+    if isinstance(t, ast.Attribute):
+        return isinstance(t.value, ast.Name)
+    if isinstance(t, (ast.Tuple, ast.List)):
+        return all(_plain_target(e) for e in t.elts)
+    return False
 
 
 class _ReplaceNode(ast.NodeTransformer):
@@ -384,34 +505,58 @@ def _inline_block(stmts: List[ast.stmt], helpers, self_name, mf, ctx: _Ctx, owne
                     out += fused
                     changed = True
                     continue
-        found = _find_inline_call(st, helpers, self_name, mf)
-        if found is None or found[1].fn.name == owner_name:
-            out.append(st)
-            continue
-        call, h, recv = found
-        # direct forms
-        if isinstance(st, ast.Expr) and st.value is call:
-            body = _expand(call, h, recv, None, ctx, st)
-            if body is not None:
-                out += body or [ast.copy_location(ast.Pass(), st)]
+        for _round in range(12):
+            hits = [h_ for h_ in _find_inline_calls(st, helpers, self_name, mf) if h_[1].fn.name != owner_name]
+            if not hits:
+                break
+            call, h, recv, guarded = hits[0]
+            # a conditionally evaluated call can only be replaced in place (expression helpers)
+            if guarded:
+                sub = None
+                for call, h, recv, guarded in hits:
+                    sub = _expand_expr(call, h, recv, ctx)
+                    if sub is not None:
+                        break
+                if sub is None:
+                    break
+                st = _ReplaceNode(call, sub).visit(st)
+                ast.fix_missing_locations(st)
                 changed = True
                 continue
-        if isinstance(st, ast.Assign) and st.value is call and len(st.targets) == 1 and isinstance(st.targets[0], ast.Name):
-            body = _expand(call, h, recv, st.targets[0].id, ctx, st)
-            if body is not None:
-                out += body
+            # direct forms
+            if isinstance(st, ast.Expr) and st.value is call:
+                body = _expand(call, h, recv, None, ctx, st)
+                if body is not None:
+                    out += body or [ast.copy_location(ast.Pass(), st)]
+                    changed = True
+                    st = None
+                break
+            if isinstance(st, ast.Assign) and st.value is call and len(st.targets) == 1 and _plain_target(st.targets[0]):
+                tg = st.targets[0]
+                body = _expand(call, h, recv, tg.id if isinstance(tg, ast.Name) else tg, ctx, st)
+                if body is not None:
+                    out += body
+                    changed = True
+                    st = None
+                break
+            # an expression helper called with call-free arguments: in place
+            sub = _expand_expr(call, h, recv, ctx) if all(_is_pure(a) for a in list(call.args) + [k.value for k in call.keywords]) else None
+            if sub is not None:
+                st = _ReplaceNode(call, sub).visit(st)
+                ast.fix_missing_locations(st)
                 changed = True
                 continue
-        # general: hoist the call into a temporary
-        ctx.k += 1
-        tmp = f"_r{ctx.k}__{h.fn.name.strip('_')}"
-        body = _expand(call, h, recv, tmp, ctx, st)
-        if body is None:
+            # general: hoist the call into a temporary
+            ctx.k += 1
+            tmp = f"_r{ctx.k}__{h.fn.name.strip('_')}"
+            body = _expand(call, h, recv, tmp, ctx, st)
+            if body is None:
+                break
+            st = _ReplaceNode(call, ast.copy_location(ast.Name(id=tmp, ctx=ast.Load()), call)).visit(st)
+            out += body
+            changed = True
+        if st is not None:
             out.append(st)
-            continue
-        newst = _ReplaceNode(call, ast.copy_location(ast.Name(id=tmp, ctx=ast.Load()), call)).visit(st)
-        out += body + [newst]
-        changed = True
     return out, changed
 
 
@@ -485,6 +630,7 @@ def inline_helpers(tree: ast.Module, passes: int = 3) -> int:
 
         def do_fn(fn: ast.FunctionDef):
             nonlocal changed_any
+            ctx.k = n_changed * 100          # tags count per caller: two callers inlining the same helper get equal names
             _CALLABLE_LOCALS.clear()
             for x in ast.walk(fn):
                 if isinstance(x, ast.FunctionDef) and x is not fn:
